@@ -70,13 +70,17 @@ def main(ctx, replay=None):
                 piv = [n for n in range(21) if null[j][n] != 0 and all(null[k][n] == 0 for k in range(len(null)) if k != j)]
                 if piv and (piv[0] + 1) in S:
                     zero_comp = piv[0] + 1
+                    # ... or is tiny but not zero (a few thousandths of a GPa next to hundreds): then it is a value like any other
+                    tiny = bool(rng.random() < 0.5)
                     rows = []
                     for _r in range(nrows):
-                        co = [Fraction(int(rng.integers(-9, 10)) or 1, int(rng.integers(1, 5))) for _ in null]
-                        co[j] = Fraction(0)
+                        co = [Fraction(int(rng.integers(-9, 10)) or 1, int(rng.integers(1, 5))) * 40 for _ in null]
+                        co[j] = Fraction(int(rng.integers(1, 9)), 1000) if tiny else Fraction(0)
                         rows.append([sum(c * vec[n] for c, vec in zip(co, null)) for n in range(21)])
+                    if tiny:
+                        zero_comp = -zero_comp
             # values with many decimals: every row is multiplied by its own factor (the relations are homogeneous)
-            if rng.random() < 0.5:
+            if rng.random() < 0.5 and not (zero_comp is not None and zero_comp < 0):
                 facs = [Fraction(int(rng.integers(100000, 999999)), 1000003) for _ in rows]
                 rows = [[x * f for x in r] for r, f in zip(rows, facs)]
             zero_row = False
